@@ -173,6 +173,12 @@ impl<'a> InteriorNode<'a> {
             "expected BTreeInterior page, got {:?}",
             header.page_type()
         );
+        // every accessor indexes the slot array with cell_count as its bound
+        ensure!(
+            INTERIOR_CONTENT_START + header.cell_count() as usize * INTERIOR_SLOT_SIZE <= PAGE_SIZE,
+            "corrupted interior page: cell count {} does not fit the page",
+            header.cell_count()
+        );
         Ok(Self { data })
     }
 
@@ -268,6 +274,12 @@ impl<'a> InteriorNodeMut<'a> {
             header.page_type() == PageType::BTreeInterior,
             "expected BTreeInterior page, got {:?}",
             header.page_type()
+        );
+        // every accessor indexes the slot array with cell_count as its bound
+        ensure!(
+            INTERIOR_CONTENT_START + header.cell_count() as usize * INTERIOR_SLOT_SIZE <= PAGE_SIZE,
+            "corrupted interior page: cell count {} does not fit the page",
+            header.cell_count()
         );
         Ok(Self { data })
     }
